@@ -379,3 +379,58 @@ def c11_pipeline(fails_d, fails_p, pragma_errs_p, i, command, n, named_ids, well
                     out.append({"kind": "pragma-visible-to-parser", "detail": {"without": list(a), "with": list(b)}})
                     break
     return out
+
+
+def c10_two(d0, d1, g0, g1, fix_obs, F, G, minimal):
+    """two files in one `fix` invocation: per file changed <=> announced; any changed <=> the
+    fixed-at-least-one-file result"""
+    out = []
+    if mentions(fix_obs.err, "Error") or fix_obs.code == 1:
+        return out
+    any_changed = False
+    for path, before, after in ((F, d0, d1), (G, g0, g1)):
+        changed = not (after == before)
+        any_changed = any_changed or changed
+        if changed != (path in fix_obs.fixed):
+            out.append({"kind": "changed-vs-announced", "detail": {"file": path, "changed": changed, "announced": path in fix_obs.fixed}})
+    want = (0 if minimal else 3) if any_changed else 0
+    if fix_obs.code != want:
+        out.append({"kind": "exit-code-vs-changes", "detail": {"code": fix_obs.code, "expected": want, "fixed": list(fix_obs.fixed)}})
+    extra = [n for n, _ in fix_obs.files if n not in (F, G)]
+    if extra:
+        out.append({"kind": "fix-left-files", "detail": {"files": extra}})
+    return out
+
+
+def c14_fix_shape(log):
+    """fix mode: whatever passes a rule takes part in, its call log must be a sequence of
+    well-formed passes  start token* line* completed.  Returns violations (kinds distinguish a
+    completion without a start, calls outside a pass, and a start that is never completed)."""
+    out = []
+    state = "idle"
+    for i, e in enumerate(log):
+        k = e[0]
+        if k == "start":
+            if state != "idle":
+                out.append({"kind": "start-without-completion", "detail": {"at": i}})
+            state = "started"
+        elif k == "token":
+            if state == "idle":
+                out.append({"kind": "token-outside-pass", "detail": {"at": i}})
+                return out
+            if state == "lines":
+                out.append({"kind": "token-after-lines", "detail": {"at": i}})
+                return out
+        elif k == "line":
+            if state == "idle":
+                out.append({"kind": "line-outside-pass", "detail": {"at": i}})
+                return out
+            state = "lines"
+        elif k == "done":
+            if state == "idle":
+                out.append({"kind": "completed-without-start", "detail": {"at": i}})
+                return out
+            state = "idle"
+    if state != "idle":
+        out.append({"kind": "start-without-completion", "detail": {"at": len(log)}})
+    return out
